@@ -21,6 +21,32 @@ import (
 
 func init() { facets["reff"] = facetRef }
 
+// plainTree: the schema is made of objects, arrays and leaves only, through every reference.
+func (e *jsonEnv) plainTree(s *JS, depth int) bool {
+	if s == nil {
+		return true
+	}
+	if depth > 12 {
+		return false
+	}
+	switch s.Kind {
+	case "ref":
+		return e.plainTree(e.comps[s.Ref], depth+1)
+	case "obj":
+		for _, p := range s.Props {
+			if !e.plainTree(p.S, depth+1) {
+				return false
+			}
+		}
+		return e.plainTree(s.Addl, depth+1)
+	case "arr":
+		return e.plainTree(s.Items, depth+1)
+	case "allOf", "oneOf", "any":
+		return false
+	}
+	return true
+}
+
 // inlineRefs replaces every {"$ref": "#/components/..."} node by a deep copy of its target,
 // recursively. Members of a oneOf that declares a discriminator are left alone (their names are
 // the discriminator values).
@@ -297,6 +323,22 @@ func facetRef(args []string) error {
 					a, _ := json.Marshal(map[string]any{"type": tn, "doc": dc.doc})
 					add(rt.Case{Op: "jsondec", ID: fmt.Sprintf("d%d", k), Args: a}, "jsondec")
 					k++
+				}
+			}
+			// values a handler builds by hand (nil slices, unset optionals, nulls) encoded by both
+			// packages: only types whose Go shape is the same with and without references (objects,
+			// arrays and leaves all the way down; a composition is embedded in one form and flattened in
+			// the other, so one value description cannot build both)
+			ek := 0
+			for _, tn := range p.env.names {
+				if !p.env.plainTree(p.env.comps[tn], 0) {
+					continue
+				}
+				for x := 0; x < 5; x++ {
+					v := p.env.genVal(crng, p.env.comps[tn], 0)
+					a, _ := json.Marshal(map[string]any{"type": tn, "val": v})
+					add(rt.Case{Op: "jsonenc", ID: fmt.Sprintf("e%d", ek), Args: a}, "jsonenc")
+					ek++
 				}
 			}
 		case "resp":
